@@ -12,7 +12,7 @@ use serde_json::{json, Value};
 
 use crate::{
     common::*,
-    io::{wire_async_limited, wire_of_command, wire_of_list, wire_sync_limited, WireItem},
+    io::{wire_async_limited, wire_async_limited_waiting, wire_of_command, wire_of_list, wire_sync_limited, WireItem},
     mpdref::tokenizer::{split_lines, tokenize},
 };
 
@@ -242,6 +242,9 @@ fn check_case(name: &str, args: &[&str], acc: &mut Acc, verbose: bool) {
         ("AsyncConnection::send_list (one command), whole writes", wire_async_limited(WireItem::List(CommandList::new(cmd.clone())), usize::MAX)),
         ("AsyncConnection::send_list (one command), 1 byte per write", wire_async_limited(WireItem::List(CommandList::new(cmd.clone())), 1)),
         ("Connection::send, 2 bytes per write", wire_sync_limited(WireItem::Command(cmd.clone()), 2)),
+        // (round 7) partial writes with the transport busy (Pending) in between: progress must survive the wait
+        ("AsyncConnection::send, 2 bytes per write, busy between writes", wire_async_limited_waiting(WireItem::Command(cmd.clone()), 2)),
+        ("AsyncConnection::send_list (one command), 4 bytes per write, busy between writes", wire_async_limited_waiting(WireItem::List(CommandList::new(cmd.clone())), 4)),
     ] {
         acc.lines += 1;
         if got.as_deref() != Ok(&w[..]) {
@@ -257,7 +260,7 @@ fn check_case(name: &str, args: &[&str], acc: &mut Acc, verbose: bool) {
     // path 2: inside a two-element list (second position), framed by a fixed first command
     let list = CommandList::new(Command::new("first")).command(cmd);
     let w = wire_of_list(list.clone());
-    match wire_async_limited(WireItem::List(list), 5) {
+    match wire_async_limited(WireItem::List(list.clone()), 5).and_then(|a| wire_async_limited_waiting(WireItem::List(list), 7).map(|b| if a == b { a } else { b })) {
         Ok(a) if a == w => {}
         other => {
             acc.viol.push(Violation::new(
@@ -396,6 +399,40 @@ pub fn run(tier: Tier) -> i32 {
     }
     let acc4 = acc4.merge(acc6).merge(acc7);
 
+    // (round 7) arguments handed over in one reused buffer (same address, same length, other content), as an
+    // application that overwrites a String between commands does: each must go out as itself
+    let mut acc8 = Acc::default();
+    {
+        let pool: Vec<String> = strings_over(SIGMA, 2).into_iter().filter(|s| !s.contains('\n') && !s.contains('\0')).collect();
+        let mut buf = String::with_capacity(64);
+        for a in &pool {
+            for b in &pool {
+                if a == b || a.len() != b.len() {
+                    continue;
+                }
+                buf.clear();
+                buf.push_str(a);
+                let first = build("cmd", &[buf.as_str()], Via::Str).map(wire_of_command);
+                buf.clear();
+                buf.push_str(b);
+                let second = build("cmd", &[buf.as_str()], Via::Str).map(wire_of_command);
+                let fresh_a = build("cmd", &[a.clone().as_str()], Via::String).map(wire_of_command);
+                let fresh_b = build("cmd", &[b.clone().as_str()], Via::String).map(wire_of_command);
+                acc8.evaluations += 1;
+                acc8.nontrivial += 1;
+                acc8.lines += 2;
+                if first != fresh_a || second != fresh_b {
+                    acc8.viol.push(Violation::new(
+                        "C06/rendering-depends-on-history",
+                        format!("argument {:?} then {:?} through one reused buffer are sent as {:?} and {:?}; each on its own is sent as {:?} and {:?}", show_bytes(a.as_bytes()), show_bytes(b.as_bytes()), first.as_ref().map(|w| show_bytes(w)), second.as_ref().map(|w| show_bytes(w)), fresh_a.as_ref().map(|w| show_bytes(w)), fresh_b.as_ref().map(|w| show_bytes(w))),
+                        case_json("cmd", &[a.as_str(), b.as_str()], Via::Str, "reused-buffer"),
+                    ));
+                }
+            }
+        }
+    }
+    let acc4 = acc4.merge(acc8);
+
     // every command name the builder accepts must be read back as that command word
     let name_pool = strings_over(NAME_SIGMA, tier.pick(3, 4));
     let acc5 = name_pool
@@ -418,7 +455,7 @@ pub fn run(tier: Tier) -> i32 {
     cov.evaluations = acc.evaluations;
     cov.distinct_nontrivial = acc.nontrivial;
     cov.rule = format!(
-        "every string over {} class representatives {:?} of length 0..={} as single argument, all pairs of strings of length <=2 (thorough: <=3), all triples of length <=1, plus long argument lists, one argument x<c>y per Unicode scalar value in U+0080..U+33FF, U+FF00..U+FFFF, U+1F000..U+1F6FF (a subset also next to a blank; thorough: all), and arguments of every length 1..=40 (thorough: ..=130) with one separator / quote / non-ASCII character at every position; each case is distinct by construction; non-trivial = some argument is empty or contains a byte <=0x20, a quote, a backslash or a non-ASCII byte",
+        "every string over {} class representatives {:?} of length 0..={} as single argument, all pairs of strings of length <=2 (thorough: <=3), all triples of length <=1, plus long argument lists, one argument x<c>y per Unicode scalar value in U+0080..U+33FF, U+FF00..U+FFFF, U+1F000..U+1F6FF (a subset also next to a blank; thorough: all), and arguments of every length 1..=40 (thorough: ..=130) with one separator / quote / non-ASCII character at every position, pairs of equally long arguments through one reused buffer, transports that are busy between partial writes; each case is distinct by construction; non-trivial = some argument is empty or contains a byte <=0x20, a quote, a backslash or a non-ASCII byte",
         SIGMA.len(),
         SIGMA.iter().map(|s| show_bytes(s.as_bytes())).collect::<Vec<_>>(),
         single_len
